@@ -10,6 +10,7 @@ import (
 	"time"
 
 	"github.com/LiskHQ/lisk-engine/pkg/blockchain"
+	"github.com/LiskHQ/lisk-engine/pkg/db/diffdb"
 
 	"verif/node"
 	"verif/vlib"
@@ -126,6 +127,14 @@ func main() {
 		paths = [][]int{c.Path}
 	} else {
 		gen(nil)
+		// long histories: every prefix of chains in which an early validator-set change is later pruned from the
+		// consensus state (the vote window has moved past it and certification has caught up), so that the block
+		// being deleted has itself deleted state keys
+		for _, long := range longPaths {
+			for l := K + 1; l <= len(long); l++ {
+				paths = append(paths, append([]int{}, long[:l]...))
+			}
+		}
 	}
 	keepVariants := []int{300, 1}
 	r.RunSharded(len(paths), func(i int) {
@@ -164,6 +173,12 @@ func main() {
 						continue
 					}
 					r.Add("transitions", 2)
+					if raw, ok := n.DB.Get(append([]byte{51}, be32(b.Header.Height)...)); ok {
+						df := &diffdb.Diff{}
+						if df.Decode(raw) == nil && len(df.Deleted) > 0 {
+							r.Add("applied_blocks_that_deleted_state_keys", 1)
+						}
+					}
 					if err := n.Exec.VerifDeleteBlock(b, saveTemp); err != nil {
 						r.Violation("delete-tip-failed", fmt.Sprintf("deleting the freshly applied tip failed: %v (path %v shape %d)", err, path, k), c)
 						rebuild()
@@ -260,6 +275,15 @@ func main() {
 	r.Set("explanation", "states = distinct menu paths from genesis built on a fresh real node (x2 event-retention settings); transitions = real processValidated/deleteBlock calls; oracle = byte-for-byte DB dump equality modulo the exceptions the property names")
 	r.Finish()
 }
+
+// longPaths: menu shapes 4/5 = validator join / re-weight, 7 = block with an aggregate commit, 0 = empty block
+var longPaths = [][]int{
+	{4, 0, 0, 0, 0, 0, 0, 7, 0, 0, 7, 0, 0, 7, 0, 0},
+	{0, 0, 5, 0, 0, 0, 7, 0, 0, 0, 7, 0, 0, 7, 0, 0},
+	{4, 0, 0, 5, 0, 0, 7, 0, 0, 7, 0, 0, 7, 0, 0, 7},
+}
+
+func be32(x uint32) []byte { return []byte{byte(x >> 24), byte(x >> 16), byte(x >> 8), byte(x)} }
 
 func min(a, b int) int {
 	if a < b {
